@@ -137,6 +137,43 @@ def rule_b(repo, chk, all_versions=False):
     chk.ob('C06.b', ok, ins, 'the insertion point climbs async_funcdef/decorated/async_stmt wrappers repeatedly (while), so new code lands before `async def` / decorators')
 
 
+def rule_c(repo, chk):
+    chk.clause('C06.c', 'extract_function parameter analysis: every name read inside the extracted range is resolved with context.goto and classified by '
+                        '_is_name_input unless it already is an input — no shortcut that treats a name as local because it is (also) assigned in the range')
+    f = repo.find(EXT, '_find_inputs_and_outputs')
+    c = cfg_of(f)
+    loops = [n for n in c.nodes if n.kind == 'for' and call_name(n.ast.iter) == '_find_non_global_names']
+    chk.ob('C06.c', len(loops) >= 1, f, 'one loop over all names of the extracted nodes')
+    resolved = [n for n in c.nodes if node_has(n, lambda x: isinstance(x, ast.Call) and call_name(x) == 'goto')]
+    chk.ob('C06.c', bool(resolved), f, 'read names are resolved with goto')
+
+    def decided(n, k, m):
+        e = n.ast
+        if n.kind != 'test':
+            return False
+        if norm(e) == 'name.is_definition()' and k == 'T':
+            return True          # a binding, not a read
+        if isinstance(e, ast.Compare) and isinstance(e.ops[0], ast.NotIn) and norm(e.left) == 'name.value' and norm(e.comparators[0]) == 'inputs' and k == 'F':
+            return True          # already an input
+        return False
+    if loops:
+        starts = [m for h in loops[:1] for m, k in h.succ if k == 'T']
+        p = c.reach(starts, lambda n: n in loops, block_node=lambda n: n in resolved, block_edge=decided, kinds={'n', 'T', 'F'})
+        chk.ob('C06.c', p is None, loops[0].ast, 'a read name reaches the next iteration only through the goto-based classification',
+               'shortcut path: %s' % c.describe(p) if p else '')
+    ii = [x for x in calls_in(f, '_is_name_input')]
+    chk.ob('C06.c', len(ii) == 1 and [norm(a) for a in ii[0].args] == ['module_context', 'name_definitions', 'first', 'last'], f,
+           'classification is _is_name_input(module_context, definitions, first, last) over the whole range')
+    fl = [s_ for s_ in stmts_in(f, ast.Assign) if norm(s_.targets[0]) in ('first', 'last')]
+    ok = sorted(norm(s_.value) for s_ in fl) == ['nodes[-1].end_pos', 'nodes[0].start_pos']
+    chk.ob('C06.c', ok, f, 'the range is nodes[0].start_pos .. nodes[-1].end_pos')
+    rp = repo.find(EXT, '_replace')
+    full = [s_ for s_ in stmts_in(rp, ast.Assign) if norm(s_.value) == 'first_node_leaf.prefix']
+    ok = bool(full) and all(gate(rp, s_, lambda e, pol: pol and norm(e) == 'remaining_prefix is None') is None for s_ in full)
+    chk.ob('C06.c', ok, rp, 'without a remaining prefix the replaced expression keeps the WHOLE prefix of its first leaf (comments, blank lines and line '
+           'breaks in front of it are preserved)', 'no assignment from first_node_leaf.prefix under `remaining_prefix is None`')
+
+
 def thorough(repo, chk):
     rule_a(repo, chk, all_versions=True)
     rule_b(repo, chk, all_versions=True)
@@ -147,4 +184,4 @@ def describe(chk):
                   'prefix/indentation handling of _replace, side conditions of inline (global statements, await, integer literals with trailers)')
 
 
-RULES = [('C06.a', rule_a), ('C06.b', rule_b)]
+RULES = [('C06.a', rule_a), ('C06.b', rule_b), ('C06.c', rule_c)]
